@@ -20,7 +20,7 @@ PROP = "C51"
 READY = True
 DRIVER = "dm_stores"
 LEAN_MODULES = ["DaskModel.Props.C51"]
-CASE_TIMEOUT_S = 10
+CASE_TIMEOUT_S = 30
 LEVEL_TEXT = (
     "Lean 4 theorems over a transliteration of dask/rewrite.py (after fix: commits 2ab889a and 88a2bf8): match_sound "
     "(every yielded (rule, sigma) has sigma(lhs) = term, via the exact specification instPattern), "
@@ -288,10 +288,16 @@ def case_match(ctx, inp):
     # rewrite, both strategies
     for strat in ("top_level", "bottom_up"):
         try:
-            res = from_py(rs.rewrite(tp, strategy=strat))
+            res_py = rs.rewrite(tp, strategy=strat)
         except Exception as e:  # noqa: BLE001
             ctx.fail(f"rewrite({strat}) raised", observed=f"{type(e).__name__}: {e}")
             continue
+        if _py_size(res_py, 1500) > 1500:
+            # a rule with a bare-variable lhs and a duplicating rhs makes bottom-up rewriting blow up exponentially
+            # (the real code shares the subterms; writing the result out would take seconds): not compared
+            ctx.branch("rewrite-result-too-large-skipped")
+            continue
+        res = from_py(res_py)
         m = ctx.lean(Sym("rw-rewrite"), wr, wire(term), Sym(strat))
         ctx.eq(f"rewrite({strat})", m if m[0] != "ok" else unwire(m[1]), res)
         if strat == "top_level":
@@ -306,6 +312,17 @@ def case_match(ctx, inp):
                 ctx.fail("top-level rewrite changed a term that no rule matches", observed=res, expected=term)
         elif res != term:
             ctx.branch("bottom-up-rewrote")
+
+
+def _py_size(x, cap):
+    """number of nodes of a Python term, counted up to `cap` (iterative, so shared giant terms are cut off early)"""
+    n, stack = 0, [x]
+    while stack and n <= cap:
+        y = stack.pop()
+        n += 1
+        if isinstance(y, (tuple, list)):
+            stack.extend(y)
+    return n
 
 
 def _mentions(t, names):
